@@ -56,7 +56,7 @@ class ScenarioResult:
 
 
 def decide(m, sc_name, timeout=120, portfolio=solve.DEFAULT_PORTFOLIO, extra_goals=(), workdir=None,
-           assume_no_unwind=True, check_unwind=True, expected_cover=(), log=None, max_violations=2, par=6, split_above=1500, max_chunks=4):
+           assume_no_unwind=True, check_unwind=True, expected_cover=(), log=None, max_violations=2, par=4, split_above=2500, max_chunks=3):
     """pose every obligation of machine m to the solver. Returns ScenarioResult"""
     res = ScenarioResult(sc_name)
     workdir = workdir or os.path.join(BUILD, 'smt')
@@ -68,12 +68,13 @@ def decide(m, sc_name, timeout=120, portfolio=solve.DEFAULT_PORTFOLIO, extra_goa
             return res
 
     # executions that touch an operation the engine cannot encode are excluded here and reported separately
+    noun_unwind = list(noun)
     noun = noun + [Not(g) for g, w in getattr(m, 'unsupported', [])]
     import threading, concurrent.futures
     lock = threading.Lock()
 
     def ask(name, kind, goal, nass, where=None, use_noun=True):
-        ass = m.gassumptions + m.assumptions[:nass] + (noun if use_noun else [])
+        ass = m.gassumptions + m.assumptions[:nass] + (noun if use_noun is True else (noun_unwind if use_noun == 'unwind-only' else []))
         r = solve.check_sat(ass, goal, timeout, portfolio, workdir, tag=sc_name[:20])
         o = Outcome(name, kind, r.status, r.time, r.solver, r.error, r.model, where)
         with lock:
@@ -109,7 +110,7 @@ def decide(m, sc_name, timeout=120, portfolio=solve.DEFAULT_PORTFOLIO, extra_goa
 
     def unsupported_task():
         goal = OrL(g for g, w in m.unsupported)
-        o, r = ask('unsupported-operations-unreachable[%d]' % len(m.unsupported), 'engine-limit', goal, len(m.assumptions))
+        o, r = ask('unsupported-operations-unreachable[%d]' % len(m.unsupported), 'engine-limit', goal, len(m.assumptions), use_noun='unwind-only')
         if r.status != 'unsat':
             msg = m.unsupported[0][1]
             if r.status == 'sat':
